@@ -13,13 +13,68 @@
    found, lookup of a member key) and returns them as tokens together with the loaded value;
    elem_prog / member_prog are the request programs (in the history language of MpScopeSpec.v) the
    layer issues on that document; read_off re-reads the loaded value from the tokens alone.
-   Not modelled here: std::map targets (SerializeMapImpl loads each value from inside the VisitKeys
-   callback, which the history language cannot express yet), std::vector<bool> (its own loop), tuples,
-   validation.  Definitions only. *)
+     std::array<T, N> / T[N] (SerializeFixedSizeArray) -> OpenArrayScope, one element load per element while
+       elements of both sides remain (an element that is not loaded keeps its value), then OutOfRange unless
+       both the target and the document array are exhausted;
+     std::vector<bool> (its own loop) -> as a sequence container, but an element that is not loaded takes
+       the value of the PREVIOUS element (the loop assigns the same local variable again; false for the first);
+     std::map<K, V> (SerializeMapImpl, MapLoadMode::Clean) with K = std::string or an integer type ->
+       OpenObjectScope, clear(), VisitKeys; in the callback: ConvertByPolicy(archive key -> K),
+       try_emplace(hint, key), then the keyed load of the mapped value under the ARCHIVE key; a mapped
+       value that is not loaded stays value-initialised; a key that does not fit K is an Overflow error
+       or, under the Skip policy, passed over.  The result is ordered by std::less<K>.
+       Modelled for archive keys of the class of K (string keys for std::string, integer keys for the
+       integer types) that convert to pairwise different K: see `modelled`; the conversions between the
+       classes (text <-> number, float / timestamp keys) and the load into an element that try_emplace
+       found already present are NOT modelled.
+   load_tr is the association-list level: it consumes the scopes' ANSWERS (typed_spec of the value
+   found, lookup of a member key) and returns them as tokens together with the loaded value.
+   Not modelled here: MapLoadMode::OnlyExistKeys / UpdateKeys (load_tr has no initial target content),
+   std::tuple / std::pair (SerializeArray of a tuple swallows an OutOfRange raised while its components load,
+   under the Skip policy: an error in the middle of an error-free load, which the history language cannot express),
+   validation.  On loads that end in an error the tokens are not claimed (only the error).  Definitions only. *)
 From BS Require Import Base MpSpec MpModel MpSaveModel MpScopeSpec.
 Local Open Scope N_scope.
 
 (* ---------- shapes of load targets ---------- *)
+Inductive kshape := KSStr | KSInt (k : ikind).   (* std::string / an integer type *)
+
+Definition ikind_eqb (k k' : ikind) : bool :=
+  match k, k' with
+  | IU8, IU8 | IU16, IU16 | IU32, IU32 | IU64, IU64 | IS8, IS8 | IS16, IS16 | IS32, IS32 | IS64, IS64 => true
+  | _, _ => false
+  end.
+
+Definition key_has (k : tv) (ks : kshape) : bool :=
+  match k, ks with
+  | TStr _, KSStr => true
+  | TInt k _, KSInt k' => ikind_eqb k k'
+  | _, _ => false
+  end.
+
+(* ---------- std::map: ordering ---------- *)
+(* std::less<std::string>: lexicographic on unsigned char, a proper prefix first *)
+Fixpoint bytes_ltb (a b : list N) : bool :=
+  match a, b with
+  | _, [] => false
+  | [], _ :: _ => true
+  | x :: a', y :: b' => (x <? y) || ((x =? y) && bytes_ltb a' b')
+  end.
+
+Definition tkey_ltb (a b : tv) : bool :=
+  match a, b with
+  | TStr x, TStr y => bytes_ltb x y
+  | TInt _ x, TInt _ y => (x <? y)%Z
+  | _, _ => false
+  end.
+
+(* the pairs of a std::map value: strictly increasing keys *)
+Fixpoint pairs_sorted (l : list (tv * tv)) : bool :=
+  match l with
+  | [] => true
+  | (k, _) :: t => (match t with [] => true | (k', _) :: _ => tkey_ltb k k' end) && pairs_sorted t
+  end.
+
 Inductive shape :=
 | SNil                                   (* std::nullptr_t *)
 | SBool
@@ -29,7 +84,10 @@ Inductive shape :=
 | SStr                                   (* std::string *)
 | SBytes                                 (* std::vector<unsigned char> *)
 | SVec (e : shape)                       (* sequence container of e *)
-| SClass (ms : list (list N * shape)).   (* class: members (name, shape) in declaration order *)
+| SClass (ms : list (list N * shape))    (* class: members (name, shape) in declaration order *)
+| SMap (ks : kshape) (e : shape)         (* std::map<K, e>, MapLoadMode::Clean *)
+| SArr (n : nat) (e : shape)             (* std::array<e, n>, e[n] *)
+| SVecBool.                              (* std::vector<bool> *)
 
 Definition key_bytes (k : tv) : list N := match k with TStr s => s | _ => [] end.
 
@@ -47,7 +105,8 @@ Fixpoint shape_of (v : tv) : shape :=
                            match l with [] => [] | (k, x) :: t => (key_bytes k, shape_of x) :: go t end) kvs)
   end.
 
-(* v is a value of the static shape s: arrays are homogeneous, objects are classes with string member names *)
+(* v is a value of the static shape s: arrays are homogeneous, objects are classes with string member names or
+   std::map values (keys of the map's key type, strictly increasing) *)
 Fixpoint has_shape (v : tv) (s : shape) {struct v} : bool :=
   match v, s with
   | TNil, SNil | TBool _, SBool | TF32 _, SF32 | TF64 _, SF64 | TStr _, SStr | TBytes _, SBytes => true
@@ -64,6 +123,12 @@ Fixpoint has_shape (v : tv) (s : shape) {struct v} : bool :=
          match k with TStr kb => bytes_eqb kb name | _ => false end && has_shape x s' && all t ms'
        | _, _ => false
        end) kvs ms
+  | TObj kvs, SMap ks e =>
+    (fix all (l : list (tv * tv)) : bool :=
+       match l with [] => true | (k, x) :: t => key_has k ks && has_shape x e && all t end) kvs && pairs_sorted kvs
+  | TArr l, SArr n e =>
+    Nat.eqb (length l) n && (fix all (l : list tv) : bool := match l with [] => true | x :: t => has_shape x e && all t end) l
+  | TArr l, SVecBool => (fix all (l : list tv) : bool := match l with [] => true | TBool _ :: t => all t | _ => false end) l
   | _, _ => false
   end.
 
@@ -98,6 +163,70 @@ Fixpoint default_of (s : shape) : tv :=
   | SVec _ => TArr []
   | SClass ms => TObj ((fix go (ms : list (list N * shape)) : list (tv * tv) :=
                           match ms with [] => [] | (k, s') :: t => (TStr k, default_of s') :: go t end) ms)
+  | SMap _ _ => TObj []
+  | SArr n e => TArr (repeat (default_of e) n)
+  | SVecBool => TArr []
+  end.
+
+(* ---------- std::map: insertion, key conversion ---------- *)
+(* try_emplace: an equivalent key already present keeps its place (and, here, its value: the load into a
+   present element is outside `modelled`) *)
+Fixpoint map_insert (k x : tv) (l : list (tv * tv)) : list (tv * tv) :=
+  match l with
+  | [] => [(k, x)]
+  | (k', x') :: t =>
+    if tkey_ltb k k' then (k, x) :: l
+    else if tkey_ltb k' k then (k', x') :: map_insert k x t
+    else l
+  end.
+
+Definition map_of (es : list (tv * tv)) : list (tv * tv) :=
+  fold_right (fun e acc => map_insert (fst e) (snd e) acc) [] es.
+
+(* ConvertByPolicy(archive key, K): the key / passed over / exception *)
+Inductive ckey := CKey (k : tv) | CSkip | CErr (e : serr).
+
+Definition conv_key (o : opts) (ks : kshape) (kk : key) : ckey :=
+  match ks, kk with
+  | KSStr, KStr s => CKey (TStr s)
+  | KSInt k, KInt z =>
+    if ikind_range k z then CKey (TInt k z)
+    else match o_overflow o with PThrow => CErr (SE EOverflow) | PSkip => CSkip end
+  | _, _ =>   (* a key of another class: NOT MODELLED (excluded by `modelled`); a placeholder keeps the functions total *)
+    match o_mismatch o with PThrow => CErr (SE EMismatch) | PSkip => CSkip end
+  end.
+
+Definition key_class_ok (ks : kshape) (k : mpv) : bool :=
+  match ks, keyden k with
+  | KSStr, Some (KStr _) => true
+  | KSInt _, Some (KInt _) => true
+  | _, _ => false
+  end.
+
+Definition keys_list (kvs : list (mpv * mpv)) : list key :=
+  flat_map (fun kv => match keyden (fst kv) with Some k => [k] | None => [] end) kvs.
+
+(* the documents on which load_tr claims to mirror the code for a target of shape s: every map that meets a
+   std::map target has keys of the target's key class, pairwise different *)
+Fixpoint modelled (s : shape) (v : mpv) {struct s} : bool :=
+  match s with
+  | SVec e | SArr _ e => match v with MArr vs => forallb (modelled e) vs | _ => true end
+  | SClass ms =>
+    match v with
+    | MMap kvs =>
+      (fix go (ms : list (list N * shape)) : bool :=
+         match ms with
+         | [] => true
+         | (name, s') :: ms' => (match lookup (KStr name) kvs with Some x => modelled s' x | None => true end) && go ms'
+         end) ms
+    | _ => true
+    end
+  | SMap ks e =>
+    match v with
+    | MMap kvs => forallb (fun kv => key_class_ok ks (fst kv) && modelled e (snd kv)) kvs && keys_distinct (keys_list kvs)
+    | _ => true
+    end
+  | _ => true
   end.
 
 (* the C++ object a delivered value becomes *)
@@ -153,6 +282,22 @@ Section Load.
       end.
   End Elements.
 
+  (* std::vector<bool>: the loop loads into one local bool and assigns it to the element whether it was loaded or not *)
+  Section Bools.
+    Variable load_b : mpv -> list tok * lres.
+    Fixpoint bools_tr (prev : bool) (vs : list mpv) : list tok * list tv * option serr :=
+      match vs with
+      | [] => ([KIsEnd true], [], None)
+      | v :: vs' =>
+        match load_b v with
+        | (t, LErr err) => (KIsEnd false :: t, [], Some err)
+        | (t, r) =>
+          let b := match r with LOk (TBool b) => b | _ => prev end in
+          match bools_tr b vs' with (t', items, err) => (KIsEnd false :: t ++ t', TBool b :: items, err) end
+        end
+      end.
+  End Bools.
+
   Definition vec_tr (e : shape) (load_e : mpv -> list tok * lres) (mk : list tv -> tv) (v : mpv) : list tok * lres :=
     match v with
     | MArr vs =>
@@ -164,7 +309,33 @@ Section Load.
     end.
 
   Definition absent_toks (s : shape) : list tok :=
-    match s with SVec _ | SClass _ => [KNone] | SBytes => [KNone; KNone] | _ => [KFalse] end.
+    match s with SVec _ | SClass _ | SMap _ _ | SArr _ _ | SVecBool => [KNone] | SBytes => [KNone; KNone] | _ => [KFalse] end.
+
+  (* SerializeMapImpl over the members of the document, in document order: key conversion, then the load of the
+     mapped value under the archive key (which finds the member just visited); stop at an exception *)
+  Section Entries.
+    Variable ks : kshape.
+    Variable e : shape.
+    Variable load_e : mpv -> list tok * lres.
+    Fixpoint entries_tr (kvs : list (mpv * mpv)) : list tok * list (tv * tv) * option serr :=
+      match kvs with
+      | [] => ([], [], None)
+      | (k, x) :: kvs' =>
+        match keyden k with
+        | None => ([], [], Some (SE EParse))     (* ReadKey: unsupported key kind *)
+        | Some kk =>
+          match conv_key o ks kk with
+          | CErr err => ([], [], Some err)
+          | CSkip => entries_tr kvs'
+          | CKey key =>
+            match load_e x with
+            | (t, LErr err) => (t, [], Some err)
+            | (t, r) => match entries_tr kvs' with (t', es, err) => (t ++ t', (key, fill e r) :: es, err) end
+            end
+          end
+        end
+      end.
+  End Entries.
 
   (* value.Serialize(scope): one keyed load per member, in declaration order; stop at an exception *)
   Section Members.
@@ -206,6 +377,36 @@ Section Load.
         end
       | _ => no_container v
       end
+    | SArr n e =>
+      match v with
+      | MArr vs =>
+        (* elements while both sides have one; then the count check *)
+        match elems_tr e (load_tr e) (firstn n vs) with
+        | (t, items, None) =>
+          if Nat.eqb (length vs) n then (KOpen :: t ++ [KClose], LOk (TArr items))
+          else (KOpen :: t, LErr SERange)
+        | (t, _, Some err) => (KOpen :: t, LErr err)
+        end
+      | _ => no_container v
+      end
+    | SVecBool =>
+      match v with
+      | MArr vs =>
+        match bools_tr (scalar_tr SBool (TgInt (mkIty false 1))) false vs with
+        | (t, items, None) => (KOpen :: t ++ [KClose], LOk (TArr items))
+        | (t, _, Some err) => (KOpen :: t, LErr err)
+        end
+      | _ => no_container v
+      end
+    | SMap ks e =>
+      match v with
+      | MMap kvs =>
+        match entries_tr ks e (load_tr e) kvs with
+        | (t, es, None) => (KOpen :: t ++ [KClose], LOk (TObj (map_of es)))
+        | (t, _, Some err) => (KOpen :: t, LErr err)
+        end
+      | _ => no_container v
+      end
     | _ => match target_of s with Some t => scalar_tr s t v | None => ([], LNot) end
     end.
 
@@ -226,6 +427,23 @@ Definition arr_prog (prog_e : mpv -> list areq) (v : mpv) : areqs :=
   match v with MArr vs => mk_areqs (vec_body prog_e vs) | _ => ANil end.
 
 Definition u8_prog (_ : mpv) : list areq := [AGet (TgInt (mkIty false 8))].
+Definition bool_prog (_ : mpv) : list areq := [AGet (TgInt (mkIty false 1))].
+
+Fixpoint mk_vacts (l : list vact) : vacts := match l with [] => VANil | a :: t => VACons a (mk_vacts t) end.
+
+(* the callback of SerializeMapImpl, one action per member of the document *)
+Section MapActs.
+  Variable o : opts.
+  Variable ks : kshape.
+  Variable vprog : mpv -> vact.
+  Definition map_act (kv : mpv * mpv) : vact :=
+    match keyden (fst kv) with
+    | Some kk => match conv_key o ks kk with CKey _ => vprog (snd kv) | CSkip => VSkip | CErr e => VThrow e end
+    | None => VSkip
+    end.
+  Fixpoint map_acts (kvs : list (mpv * mpv)) : list vact :=
+    match kvs with [] => [] | kv :: kvs' => map_act kv :: map_acts kvs' end.
+End MapActs.
 
 Section MemberProgs.
   Variable mprog : shape -> qkey -> option mpv -> list req.
@@ -237,35 +455,60 @@ Section MemberProgs.
     end.
 End MemberProgs.
 
-(* the program is a function of the shape and of the document: the layer is adaptive only in looping
-   while !IsEnd(), in not entering a child scope that was not opened, and in the binary -> array fallback *)
-Fixpoint elem_prog (s : shape) (v : mpv) {struct s} : list areq :=
-  match s with
-  | SVec e => [AArr (arr_prog (elem_prog e) v)]
-  | SBytes => match v with
-              | MBin bs => [ABin (length bs)]
-              | _ => [ABin 0; AArr (arr_prog u8_prog v)]
-              end
-  | SClass ms => [AObj (match v with MMap kvs => mk_reqs (members_prog member_prog kvs ms) | _ => RNil end)]
-  | _ => match target_of s with Some t => [AGet t] | None => [] end
-  end
-with member_prog (s : shape) (q : qkey) (ov : option mpv) {struct s} : list req :=
-  match s with
-  | SVec e => [RArr q (match ov with Some v => arr_prog (elem_prog e) v | None => ANil end)]
-  | SBytes => match ov with
-              | Some (MBin bs) => [RBin q (length bs)]
-              | Some v => [RBin q 0; RArr q (arr_prog u8_prog v)]
-              | None => [RBin q 0; RArr q ANil]
-              end
-  | SClass ms => [RObj q (match ov with Some (MMap kvs) => mk_reqs (members_prog member_prog kvs ms) | _ => RNil end)]
-  | _ => match target_of s with Some t => [RGet q t] | None => [] end
-  end.
+(* the program is a function of the shape, of the document and (for the keys of a std::map that do not fit) of
+   the policies: the layer is adaptive only in looping while !IsEnd(), in not entering a child scope that was
+   not opened, in the binary -> array fallback and in the key conversion *)
+Section Progs.
+  Variable o : opts.
 
-(* the history on the root scope: a class at the root opens the root object scope itself *)
-Definition class_prog (ms : list (list N * shape)) (kvs : list (mpv * mpv)) : reqs :=
-  mk_reqs (members_prog member_prog kvs ms).
+  Fixpoint elem_prog (s : shape) (v : mpv) {struct s} : list areq :=
+    match s with
+    | SVec e | SArr _ e => [AArr (arr_prog (elem_prog e) v)]
+    | SVecBool => [AArr (arr_prog bool_prog v)]
+    | SBytes => match v with
+                | MBin bs => [ABin (length bs)]
+                | _ => [ABin 0; AArr (arr_prog u8_prog v)]
+                end
+    | SClass ms => [AObj (match v with MMap kvs => mk_reqs (members_prog member_prog kvs ms) | _ => RNil end)]
+    | SMap ks e => [AObj (match v with MMap kvs => mk_reqs [REach (mk_vacts (map_acts o ks (vact_prog e) kvs))] | _ => RNil end)]
+    | _ => match target_of s with Some t => [AGet t] | None => [] end
+    end
+  with member_prog (s : shape) (q : qkey) (ov : option mpv) {struct s} : list req :=
+    match s with
+    | SVec e | SArr _ e => [RArr q (match ov with Some v => arr_prog (elem_prog e) v | None => ANil end)]
+    | SVecBool => [RArr q (match ov with Some v => arr_prog bool_prog v | None => ANil end)]
+    | SBytes => match ov with
+                | Some (MBin bs) => [RBin q (length bs)]
+                | Some v => [RBin q 0; RArr q (arr_prog u8_prog v)]
+                | None => [RBin q 0; RArr q ANil]
+                end
+    | SClass ms => [RObj q (match ov with Some (MMap kvs) => mk_reqs (members_prog member_prog kvs ms) | _ => RNil end)]
+    | SMap ks e => [RObj q (match ov with Some (MMap kvs) => mk_reqs [REach (mk_vacts (map_acts o ks (vact_prog e) kvs))] | _ => RNil end)]
+    | _ => match target_of s with Some t => [RGet q t] | None => [] end
+    end
+  (* the keyed load of a mapped value from inside the VisitKeys callback, under the visited key *)
+  with vact_prog (s : shape) (v : mpv) {struct s} : vact :=
+    match s with
+    | SVec e | SArr _ e => VArr (arr_prog (elem_prog e) v)
+    | SVecBool => VArr (arr_prog bool_prog v)
+    | SBytes => match v with
+                | MBin bs => VBin (length bs)
+                | _ => VBinArr 0 (arr_prog u8_prog v)
+                end
+    | SClass ms => VObj (match v with MMap kvs => mk_reqs (members_prog member_prog kvs ms) | _ => RNil end)
+    | SMap ks e => VObj (match v with MMap kvs => mk_reqs [REach (mk_vacts (map_acts o ks (vact_prog e) kvs))] | _ => RNil end)
+    | _ => match target_of s with Some t => VGet t | None => VSkip end
+    end.
 
-Definition vec_prog (e : shape) (vs : list mpv) : areqs := mk_areqs (vec_body (elem_prog e) vs).
+  (* the history on the root scope: a class / a map at the root opens the root object scope itself *)
+  Definition class_prog (ms : list (list N * shape)) (kvs : list (mpv * mpv)) : reqs :=
+    mk_reqs (members_prog member_prog kvs ms).
+
+  Definition map_prog (ks : kshape) (e : shape) (kvs : list (mpv * mpv)) : reqs :=
+    mk_reqs [REach (mk_vacts (map_acts o ks (vact_prog e) kvs))].
+
+  Definition vec_prog (e : shape) (vs : list mpv) : areqs := mk_areqs (vec_body (elem_prog e) vs).
+End Progs.
 
 (* ---------- reading the loaded value off the scopes' answers alone ---------- *)
 (* the generic layer sees nothing of the document but these tokens (true/false + value, scope opened or not,
@@ -288,6 +531,22 @@ Section ReadElems.
       end
     end.
 End ReadElems.
+
+(* std::vector<bool>: an element that is not loaded repeats the previous one *)
+Fixpoint read_bools (prev : bool) (fuel : nat) (t : list tok) : option (list tv * list tok) :=
+  match fuel with
+  | O => None
+  | S f =>
+    match t with
+    | KIsEnd true :: KClose :: t' => Some ([], t')
+    | KIsEnd false :: KVal x :: t' =>
+      let b := match of_value SBool x with TBool b => b | _ => prev end in
+      match read_bools b f t' with Some (items, t3) => Some (TBool b :: items, t3) | None => None end
+    | KIsEnd false :: KFalse :: t' =>
+      match read_bools prev f t' with Some (items, t3) => Some (TBool prev :: items, t3) | None => None end
+    | _ => None
+    end
+  end.
 
 Fixpoint read_bytes (t : list tok) : option (list N * list tok) :=
   match t with
@@ -318,7 +577,13 @@ End ReadMembers.
 
 Fixpoint read_off (s : shape) (t : list tok) {struct s} : option (lres * list tok) :=
   match s with
-  | SVec e =>
+  | SVecBool =>
+    match t with
+    | KNone :: t' => Some (LNot, t')
+    | KOpen :: t' => match read_bools false (length t') t' with Some (items, t'') => Some (LOk (TArr items), t'') | None => None end
+    | _ => None
+    end
+  | SVec e | SArr _ e =>
     match t with
     | KNone :: t' => Some (LNot, t')
     | KOpen :: t' => match read_elems e (read_off e) (length t') t' with Some (items, t'') => Some (LOk (TArr items), t'') | None => None end
@@ -345,7 +610,17 @@ Fixpoint read_off (s : shape) (t : list tok) {struct s} : option (lres * list to
       end
     | _ => None
     end
+  | SMap _ _ => None    (* the keys are not among the tokens: see map_free *)
   | _ => read_scalar s t
+  end.
+
+(* shapes without std::map *)
+Fixpoint map_free (s : shape) : bool :=
+  match s with
+  | SVec e | SArr _ e => map_free e
+  | SClass ms => (fix go (ms : list (list N * shape)) : bool := match ms with [] => true | (_, s') :: t => map_free s' && go t end) ms
+  | SMap _ _ => false
+  | _ => true
   end.
 
 (* LoadObject from bytes, association-list level: the reference decoder, then the typed load *)
